@@ -509,6 +509,10 @@ class StmtMixin:
             if name in (spec.index, spec.iterable):
                 continue
             current = frame.lookup(name)
+            if (current is None or current.kind == "undefined") and spec.types.get(name) is None:
+                from .values import UNDEF
+                frame.assign(name, UNDEF)   # loop-local temporary: must be assigned before it is read
+                continue
             frame.assign(name, self.havoc_value(name, current, spec.types.get(name)))
         self.ctx.havoc_used = True
 
